@@ -51,26 +51,6 @@ Proof.
     unfold compat in C. rewrite E in C. destruct (C eq_refl) as (-> & _). lia.
 Qed.
 
-(* one swap: every slice that shares the swapped array with the same length is re-normalised,
-   every other slice is untouched *)
-Lemma swap_frame h f sw h' w u g x :
-  wf_slice h f sw -> (f = FWhere \/ f = FHaving) -> h_swap sw h = (u, h', w) ->
-  wf_slice h g x ->
-  (forall l n c n' c', x = SArr l n c -> sw = SArr l n' c' -> n = n') ->
-  rdn g h' x = rdn g h x.
-Proof.
-  intros Wsw Hf E Wx Hc. destruct (h_swap_spec _ _ _ _ _ _ Wsw E) as (X & Rsw & Hw).
-  destruct x as [|l n c]; auto. destruct sw as [|l' n' c'].
-  - unfold rdn. f_equal. eapply rdo_frame; eauto. intros l0 n0 c0 i _ _ Hin.
-    destruct (Hw _ _ Hin) as (? & ? & Q & _). discriminate Q.
-  - destruct (Nat.eq_dec l l') as [->|N].
-    + destruct (wf_tag _ _ _ _ _ _ _ _ Wx Wsw) as (-> & ->).
-      rewrite (Hc _ _ _ _ _ eq_refl eq_refl) in *.
-      unfold rdn, rdo. rewrite Rsw. destruct Hf as [-> | ->]; cbn; rewrite wnorm_idem; reflexivity.
-    + unfold rdn. f_equal. eapply rdo_frame; eauto. intros l0 n0 c0 i Q _ Hin. inversion Q; subst.
-      destruct (Hw _ _ Hin) as (? & ? & Q' & _). inversion Q'; subst. congruence.
-Qed.
-
 Section Fin.
 Variable grow : field -> nat -> nat -> nat.
 Variable md : field -> bool.
@@ -140,51 +120,29 @@ Proof.
   - cbn beta. rewrite abs_pl, pcopy_rdo. apply peq_refl.
 Qed.
 
-(* ---- the two swaps of Statement.Build ---- *)
-Lemma swap_other h f sw h' w u g x :
-  wf_slice h f sw -> h_swap sw h = (u, h', w) -> wf_slice h g x -> g <> f -> rdo h' x = rdo h x.
-Proof.
-  intros Wsw E Wx N. destruct (h_swap_spec _ _ _ _ _ _ Wsw E) as (X & _ & Hw).
-  eapply rdo_frame; eauto. intros l n c i -> Hi Hin.
-  destruct (Hw _ _ Hin) as (n' & c' & -> & _).
-  destruct (wf_tag _ _ _ _ _ _ _ _ Wx Wsw) as (Q & _). contradiction.
-Qed.
+(* ---- the two swaps of Statement.Build (on private copies) ---- *)
+Lemma rdo_nowrite h h1 f x : hext h h1 [] -> wf_slice h f x -> rdo h1 x = rdo h x.
+Proof. intros X W. eapply rdo_frame; eauto. Qed.
 
-Lemma rdo_swap h f sw h' w u :
-  wf_slice h f sw -> h_swap sw h = (u, h', w) -> rdo h' sw = option_map wnorm (rdo h sw).
-Proof.
-  intros Wsw E. destruct (h_swap_spec _ _ _ _ _ _ Wsw E) as (_ & R & _).
-  destruct sw; auto. unfold rdo. cbn [option_map]. f_equal. exact R.
-Qed.
-
-Lemma stagec h3 sw sh (b : bool) u4 h4 w4 u5 h5 w5 :
+Lemma stagec h3 sw sh (b : bool) sw' h4 w4 sh' h5 w5 :
   wf_slice h3 FWhere sw -> wf_slice h3 FHaving sh ->
-  h_swap sw h3 = (u4, h4, w4) -> (if b then h_swap sh else ret tt) h4 = (u5, h5, w5) ->
-  hext h3 h5 (w4 ++ w5)
-  /\ rdo h5 sw = option_map wnorm (rdo h3 sw)
-  /\ (b = true -> rdo h5 sh = option_map wnorm (rdo h3 sh))
-  /\ (forall g x, wf_slice h3 g x ->
-        (forall l n c n' c', x = SArr l n c -> sw = SArr l n' c' \/ sh = SArr l n' c' -> n = n') ->
-        rdn g h5 x = rdn g h3 x).
+  h_swap grow FWhere sw h3 = (sw', h4, w4) ->
+  (if b then h_swap grow FHaving sh else ret sh) h4 = (sh', h5, w5) ->
+  w4 = [] /\ w5 = [] /\ hext h3 h5 []
+  /\ rdo h5 sw' = option_map wnorm (rdo h3 sw)
+  /\ (b = true -> rdo h5 sh' = option_map wnorm (rdo h3 sh))
+  /\ (b = false -> sh' = sh).
 Proof.
   intros Wsw Wsh E4 E5.
-  destruct (h_swap_spec _ _ _ _ _ _ Wsw E4) as (X4 & _ & _).
+  destruct (h_swap_spec _ _ _ _ _ _ _ Wsw E4) as (-> & X4 & Wsw' & R4).
   assert (Wsh4 : wf_slice h4 FHaving sh) by (eapply wf_slice_ext; eauto).
-  assert (Wsw4 : wf_slice h4 FWhere sw) by (eapply wf_slice_ext; eauto).
   destruct b.
-  - destruct (h_swap_spec _ _ _ _ _ _ Wsh4 E5) as (X5 & _ & _).
-    split; [eapply hext_trans; eauto|]. split; [|split].
-    + rewrite (swap_other _ _ _ _ _ _ _ _ Wsh4 E5 Wsw4) by discriminate. eapply rdo_swap; eauto.
-    + intros _. rewrite (rdo_swap _ _ _ _ _ _ Wsh4 E5).
-      rewrite (swap_other _ _ _ _ _ _ _ _ Wsw E4 Wsh) by discriminate. reflexivity.
-    + intros g x Wx Hc.
-      rewrite (swap_frame h4 FHaving sh h5 w5 u5 g x Wsh4 (or_intror eq_refl) E5)
-        by (eauto using wf_slice_ext).
-      apply (swap_frame h3 FWhere sw h4 w4 u4 g x Wsw (or_introl eq_refl) E4 Wx). eauto.
-  - rinv E5. rewrite app_nil_r. split; auto. split; [|split].
-    + eapply rdo_swap; eauto.
+  - destruct (h_swap_spec _ _ _ _ _ _ _ Wsh4 E5) as (-> & X5 & Wsh' & R5).
+    split; auto. split; auto. split; [apply (hext_trans _ _ _ [] [] X4 X5)|]. split; [|split].
+    + rewrite (rdo_nowrite _ _ _ _ X5 Wsw'). exact R4.
+    + intros _. rewrite R5, (rdo_nowrite _ _ _ _ X4 Wsh). reflexivity.
     + discriminate.
-    + intros g x Wx Hc. apply (swap_frame h3 FWhere sw _ w4 u4 g x Wsw (or_introl eq_refl) E4 Wx). eauto.
+  - rinv E5. split; auto. split; auto. split; auto. split; [exact R4 | split; [discriminate | auto]].
 Qed.
 
 (* ---- FROM joins, swaps, rendering, trimming ---- *)
@@ -211,32 +169,6 @@ Proof.
   apply peq_pset; auto.
 Qed.
 
-(* the condition of [stagec]'s frame, from compatibility with s *)
-Lemma compat_swaps h s g x :
-  swf h s -> wf_slice h g x -> compat s g x ->
-  forall l n c n' c', x = SArr l n c -> sl s FWhere = SArr l n' c' \/ sl s FHaving = SArr l n' c' -> n = n'.
-Proof.
-  intros W Wx C l n c n' c' -> [E | E].
-  - assert (Ww := W FWhere). rewrite E in Ww. destruct (wf_tag _ _ _ _ _ _ _ _ Wx Ww) as (-> & _).
-    unfold compat in C. rewrite E in C. apply C; auto.
-  - assert (Ww := W FHaving). rewrite E in Ww. destruct (wf_tag _ _ _ _ _ _ _ _ Wx Ww) as (-> & _).
-    unfold compat in C. rewrite E in C. apply C; auto.
-Qed.
-
-Lemma compat_self s g : excl g = false -> compat s g (sl s g).
-Proof. intro E. unfold compat. destruct (sl s g); auto. Qed.
-
-Lemma own_swaps h s g :
-  swf h s ->
-  forall l n c n' c', sl s g = SArr l n c -> sl s FWhere = SArr l n' c' \/ sl s FHaving = SArr l n' c' -> n = n'.
-Proof.
-  intros W l n c n' c' Eg [E | E].
-  - assert (Ww := W FWhere). assert (Wg := W g). rewrite E in Ww. rewrite Eg in Wg.
-    destruct (wf_tag _ _ _ _ _ _ _ _ Wg Ww) as (-> & _). congruence.
-  - assert (Ww := W FHaving). assert (Wg := W g). rewrite E in Ww. rewrite Eg in Wg.
-    destruct (wf_tag _ _ _ _ _ _ _ _ Wg Ww) as (-> & _). congruence.
-Qed.
-
 Lemma rtrim_shape h fj old js :
   sres h FFromj old (papp (rdo h old) js) fj (h : heap) [] -> True.
 Proof. auto. Qed.
@@ -260,16 +192,16 @@ Proof.
     + apply Nat.leb_gt in Ek. f_equal. lia.
 Qed.
 
-Lemma tail_spec h s f s3 h3 w3 u4 h4 w4 u5 h5 w5 :
+Lemma tail_spec h s f s3 h3 w3 sw h4 w4 sh h5 w5 :
   swf h s ->
   (if is_query f then js <- rdc (sl s FJoins) ;; fj <- h_append_each grow FFromj (sl s FFromj) js ;;
                       ret (set_sl s FFromj fj) else ret s) h = (s3, h3, w3) ->
-  h_swap (sl s3 FWhere) h3 = (u4, h4, w4) ->
-  (if is_query f && k_grpp (sc s3) then h_swap (sl s3 FHaving) else ret tt) h4 = (u5, h5, w5) ->
+  h_swap grow FWhere (sl s3 FWhere) h3 = (sw, h4, w4) ->
+  (if is_query f && k_grpp (sc s3) then h_swap grow FHaving (sl s3 FHaving) else ret (sl s3 FHaving)) h4 = (sh, h5, w5) ->
   ospec (fun q => pD (pB q f) f) h s
         (if is_query f then set_sl s3 FFromj (rtrim (sl s3 FFromj) (slen (sl s3 FJoins))) else s3)
         h5 (w3 ++ w4 ++ w5)
-  /\ render (abs h5 s3) f = render (pnorm (pB (abs h s) f)) f.
+  /\ render (abs h5 (set_sl (set_sl s3 FWhere sw) FHaving sh)) f = render (pnorm (pB (abs h s) f)) f.
 Proof.
   intros W E3 E4 E5. destruct (is_query f) eqn:Q.
   - (* a query *)
@@ -281,54 +213,47 @@ Proof.
     assert (XB := sr_ext _ _ _ _ _ _ _ RB).
     assert (Wsw3 : wf_slice h3 FWhere (sl s FWhere)) by (eapply wf_slice_ext; eauto).
     assert (Wsh3 : wf_slice h3 FHaving (sl s FHaving)) by (eapply wf_slice_ext; eauto).
-    destruct (stagec _ _ _ _ _ _ _ _ _ _ Wsw3 Wsh3 E4 E5) as (X35 & Rw & Rh & Fr).
+    destruct (stagec _ _ _ _ _ _ _ _ _ _ Wsw3 Wsh3 E4 E5) as (-> & -> & X35 & Rw & Rh & Rh').
+    rewrite !app_nil_r.
     assert (HwB : forall l i, In (l, i) w -> length h <= l \/ exists g n c, sl s g = SArr l n c /\ n <= i).
     { intros l i Hin. destruct (sr_w _ _ _ _ _ _ _ RB _ _ Hin) as [Hf | (n & c & E & Hn)]; auto.
       right. exists FFromj, n, c. split; [auto | lia]. }
     assert (own3 : forall g, rdo h3 (sl s g) = rdo h (sl s g)) by (intro g; eapply rdo_own; eauto).
-    assert (own5 : forall g, rdn g h5 (sl s g) = rdn g h (sl s g)).
-    { intro g. rewrite Fr.
-      - unfold rdn. rewrite own3. reflexivity.
-      - eapply wf_slice_ext; eauto.
-      - intros l n c n' c' Eg Hs. eapply own_swaps; eauto. }
+    assert (own5 : forall g, rdo h5 (sl s g) = rdo h (sl s g)).
+    { intro g. rewrite (rdo_nowrite _ _ _ _ X35) by (eapply wf_slice_ext; eauto). apply own3. }
     assert (Wfj3 : wf_slice h3 FFromj a) by apply (sr_wf _ _ _ _ _ _ _ RB).
-    assert (fj5 : rdo h5 a = rdo h3 a).
-    { assert (Q5 := Fr FFromj a Wfj3). unfold rdn in Q5. cbn [fnorm] in Q5. apply Q5.
-      intros l n c n' c' -> [E | E].
-      - rewrite E in Wsw3. destruct (wf_tag _ _ _ _ _ _ _ _ Wfj3 Wsw3) as (Q6 & _). discriminate Q6.
-      - rewrite E in Wsh3. destruct (wf_tag _ _ _ _ _ _ _ _ Wfj3 Wsh3) as (Q6 & _). discriminate Q6. }
+    assert (fj5 : rdo h5 a = rdo h3 a) by (eapply rdo_nowrite; eauto).
     assert (Lk : slen (sl s FJoins) = length js) by (symmetry; eapply rd_length; eauto).
     cbn [sl set_sl field_eqb]. rewrite Lk.
     split.
     + constructor.
-      * eapply hext_trans; eauto.
+      * eapply hext_trans with (w2 := []) in X35; [|exact XB]. rewrite app_nil_r in X35. exact X35.
       * intro g. cbn. destruct (field_eqb g FFromj) eqn:Eg.
         -- apply field_eqb_spec in Eg. subst. apply wf_rtrim. eapply wf_slice_ext; eauto.
         -- eapply wf_slice_ext; [exact X35 | eapply wf_slice_ext; eauto].
       * intro g. cbn. destruct (field_eqb g FFromj) eqn:Eg; auto.
         apply field_eqb_spec in Eg. subst.
         destruct (rtrim_evolves _ _ _ _ _ _ (W FFromj) RB) as [E | [E | F]]; auto.
-      * intros g x Wx C. rewrite Fr.
-        -- unfold rdn. f_equal. eapply frame_of_writes; eauto.
-        -- eapply wf_slice_ext; eauto.
-        -- eapply compat_swaps; eauto.
+      * intros g x Wx C. unfold rdn. f_equal.
+        rewrite (rdo_nowrite _ _ _ _ X35) by (eapply wf_slice_ext; eauto).
+        eapply frame_of_writes; eauto.
       * split; [unfold pD, pB; rewrite Q; reflexivity|]. intro g. unfold pD, pB. rewrite Q. cbn [pl pset abs sl set_sl].
         destruct (field_eqb g FFromj) eqn:Eg.
         -- apply field_eqb_spec in Eg. subst. cbn [fnorm field_eqb].
            rewrite (rdo_rtrim h5 FFromj) by (eapply wf_slice_ext; eauto).
            rewrite fj5, (sr_rd _ _ _ _ _ _ _ RB), pcopy_rdo. reflexivity.
-        -- apply (own5 g).
+        -- rewrite own5. reflexivity.
       * reflexivity.
     + apply render_ext2.
       * unfold pB. rewrite Q. reflexivity.
       * intros g Ex Nh. unfold pB. rewrite Q.
         destruct g; try discriminate Ex; try contradiction; cbn [pl pnorm pset abs sl set_sl field_eqb].
         -- rewrite Rw, own3. reflexivity.
-        -- assert (Q5 := own5 FGroup). exact Q5.
-        -- assert (Q5 := own5 FOrder). exact Q5.
-        -- assert (Q5 := own5 FRet). exact Q5.
-        -- assert (Q5 := own5 FSel). exact Q5.
-        -- assert (Q5 := own5 FOmit). exact Q5.
+        -- apply own5.
+        -- apply own5.
+        -- apply own5.
+        -- apply own5.
+        -- apply own5.
         -- rewrite fj5, (sr_rd _ _ _ _ _ _ _ RB), pcopy_rdo. reflexivity.
       * intro Hb. cbn [pk abs sc set_sl] in Hb. rewrite Q in Hb. cbn [andb] in Hb.
         unfold pB. rewrite Q. cbn [pl pnorm pset abs sl set_sl field_eqb].
@@ -337,27 +262,26 @@ Proof.
     rinv E3. rewrite andb_false_l in E5.
     assert (Wsw3 : wf_slice h FWhere (sl s FWhere)) by apply W.
     assert (Wsh3 : wf_slice h FHaving (sl s FHaving)) by apply W.
-    destruct (stagec _ _ _ false _ _ _ _ _ _ Wsw3 Wsh3 E4 E5) as (X35 & Rw & _ & Fr).
+    destruct (stagec _ _ _ false _ _ _ _ _ _ Wsw3 Wsh3 E4 E5) as (-> & -> & X35 & Rw & _ & Rh').
     cbn [app].
-    assert (own5 : forall g, rdn g h5 (sl s g) = rdn g h (sl s g)).
-    { intro g. apply Fr; [apply W|]. intros l n c n' c' Eg Hs. eapply own_swaps; eauto. }
+    assert (own5 : forall g, rdo h5 (sl s g) = rdo h (sl s g)) by (intro g; apply (rdo_nowrite _ _ _ _ X35 (W g))).
     split.
     + constructor; auto.
       * eapply swf_ext; eauto.
       * apply evolves_refl.
-      * intros g x Wx C. apply Fr; auto. eapply compat_swaps; eauto.
-      * split; [unfold pD, pB; rewrite Q; reflexivity|]. intro g. unfold pD, pB. rewrite Q. apply (own5 g).
+      * intros g x Wx C. unfold rdn. f_equal. eapply rdo_nowrite; eauto.
+      * split; [unfold pD, pB; rewrite Q; reflexivity|]. intro g. unfold pD, pB. rewrite Q. cbn [abs pl]. rewrite own5. reflexivity.
     + apply render_ext2.
       * unfold pB. rewrite Q. reflexivity.
       * intros g Ex Nh. unfold pB. rewrite Q.
-        destruct g; try discriminate Ex; try contradiction; cbn [pl pnorm abs].
+        destruct g; try discriminate Ex; try contradiction; cbn [pl pnorm abs sl set_sl field_eqb].
         -- exact Rw.
-        -- exact (own5 FGroup).
-        -- exact (own5 FOrder).
-        -- exact (own5 FRet).
-        -- exact (own5 FSel).
-        -- exact (own5 FOmit).
-        -- exact (own5 FFromj).
+        -- apply own5.
+        -- apply own5.
+        -- apply own5.
+        -- apply own5.
+        -- apply own5.
+        -- apply own5.
       * rewrite Q. discriminate.
 Qed.
 End Fin.
